@@ -29,8 +29,20 @@ var trUnits = []*trUnit{
 	{pkg: "lib/model/open", mod: "Open", funcs: nil},
 	{pkg: "lib/model/close", mod: "Close", funcs: nil},
 	{pkg: "lib/model/assertion", mod: "Assertion", funcs: nil},
-	{pkg: "lib/common/set", mod: "Set", funcs: []string{"Set.Add", "Set.Has", "Set.Remove"}},
-	{pkg: "lib/amounts", mod: "Amounts", funcs: []string{"AccountCommodityKey", "Amounts.Add"}},
+	{pkg: "lib/common/set", mod: "Set", funcs: []string{"Set.Add", "Set.Has", "Set.Remove", "New"},
+		agree: map[string]string{"New": "AmountsSum"}},
+	// lib/amounts: not listed (and why): Amounts.Index (compare.Sort = the unstable sort.Slice over a function VALUE that may be nil; the result
+	// depends on the iteration order unless cmp is a strict total order; not used by the balance report), CommodityMatches / AccountMatches /
+	// OtherAccountMatches (regexp)
+	{pkg: "lib/amounts", mod: "Amounts", funcs: []string{"AccountCommodityKey", "Amounts.Add",
+		"DateKey", "DateCommodityKey", "CommodityKey", "AccountKey", "Amounts.Amount", "Amounts.Clone", "Amounts.Minus", "Amounts.Plus",
+		"Amounts.Commodities", "Amounts.CommoditiesSorted", "Amounts.Dates", "Amounts.DatesSorted",
+		"Amounts.SumIntoBy", "Amounts.SumBy", "Amounts.SumOver", "KeyMapper.Build", "FilterDates"},
+		agree: map[string]string{"DateKey": "AmountsSum", "DateCommodityKey": "AmountsSum", "CommodityKey": "AmountsSum", "AccountKey": "AmountsSum",
+			"Amounts.Amount": "AmountsSum", "Amounts.Clone": "AmountsSum", "Amounts.Minus": "AmountsSum", "Amounts.Plus": "AmountsSum",
+			"Amounts.Commodities": "AmountsSum", "Amounts.CommoditiesSorted": "AmountsSum",
+			"Amounts.Dates": "AmountsSum", "Amounts.DatesSorted": "AmountsSum", "Amounts.SumIntoBy": "AmountsSum", "Amounts.SumBy": "AmountsSum",
+			"Amounts.SumOver": "AmountsSum", "KeyMapper.Build": "AmountsSum", "FilterDates": "AmountsSum"}},
 	{pkg: "lib/journal/check", mod: "Check", funcs: []string{"Checker.open", "Checker.posting", "Checker.balance", "Checker.close"}},
 	{pkg: "lib/common/table", mod: "Table", funcs: []string{"addThousandsSep", "TextRenderer.numToString"}},
 	{pkg: "lib/model/price", mod: "Price", funcs: []string{
